@@ -143,6 +143,9 @@ func (h *harness) suiteRequests(n int) {
 				// the compressed request is a request too: codec correspondence on it
 				guard(func() { plugin.VerifCompressThriftInclude(ast) })
 				h.codecCase("request-compressed", h.reqCodec(), req, incs > 0, true)
+				if data, err := plugin.MarshalRequest(req); err == nil {
+					h.uncCase(plugin.VerifAppendDataTrailer(data, plugin.VerifFeatureCompressInclude), incs > 0)
+				}
 				guard(func() { plugin.VerifDecompressThriftInclude(ast) })
 			}
 		}
